@@ -2,7 +2,7 @@
     ONLY statements pinned here; proofs live in Dashu.Int.Io*. *)
 From Dashu Require Import Base.Prelude Base.Words Int.IoSpec Int.IoModel Int.IoDigits Int.IoPrint Int.IoParse
   Int.IoRadix Int.IoLayout Int.IoBytes Int.IoRound Int.IoPow2 Int.IoTop Int.IoChunks Int.IoBytesAsIs Int.IoWords Int.IoTablesProof Int.IoSwar Int.IoPowers Int.IoBytesBEModel Int.IoBytesBE Int.IoDword
-  Int.IoDebugModel Int.IoDebug Int.IoFmt3Model Int.IoFmt3 Int.IoBigModel Int.IoBig Int.IoWriter Int.GrlSpec.
+  Int.IoDebugModel Int.IoDebug Int.IoFmt3Model Int.IoFmt3 Int.IoBigModel Int.IoBig Int.IoWriter Int.IoChunksW Int.GrlSpec.
 From DashuGen Require Import Params IoTables IoTables3.
 Open Scope Z_scope.
 
@@ -442,3 +442,24 @@ Theorem C07_digit_writer_no_letters : forall n writes, (0 < n)%nat -> Forall (fu
   dw_run n 0 writes = map (digit_char false) (concat writes).
 Proof. exact digit_writer_text_no_letters. Qed.
 Print Assumptions C07_digit_writer_no_letters.
+
+(** convert.rs chunks_to_words / Repr::from_chunks on word lists (C02's shl_in_place, C01's add_in_place, the allocation sizes
+    of the code): total - no index out of range, the discarded shift carry and the asserted addition carry are zero - and the
+    words denote the specification, every word size, every chunk width, chunks wider than chunk_bits included *)
+Theorem C07_from_chunks_words : forall w, 0 < w -> forall cb chunks, 0 < cb -> Forall (Words.wf w) chunks ->
+  exists out, from_chunks_words w cb chunks = Ok out /\ Words.wf w out /\
+    Words.value w out = from_chunks_spec cb (map (Words.value w) chunks).
+Proof. exact from_chunks_words_correct. Qed.
+Print Assumptions C07_from_chunks_words.
+
+(** radix.rs digit_from_ascii_byte - however it is written inside the translator's expression language - evaluated for all 256
+    byte values is the grammar's digit function on EVERY byte (finite domain 0..255: the argument is a u8); a rewrite that
+    changes the meaning of one byte (e.g. case folding with `byte | 0x20`, which turns 0x10..0x19 into digits) breaks this *)
+Theorem C07_digit_table : forall c, 0 <= c < 256 -> table_digit c = digit_of_char c.
+Proof. exact digit_table_ok. Qed.
+Print Assumptions C07_digit_table.
+
+Theorem C07_digit_from_ascii_table : forall r c, 0 <= c < 256 ->
+  digit_from_ascii r c = match table_digit c with Some d => if d <? r then Some d else None | None => None end.
+Proof. exact digit_from_ascii_table256. Qed.
+Print Assumptions C07_digit_from_ascii_table.
